@@ -86,11 +86,17 @@ def check(ctx):
     ctx.attempt(_helpers, multisec, multilot)
     secf = ctx.repo.func('SecUnpacker.unpack_sections')
     lotf = ctx.repo.func('LotUnpacker.unpack_lots')
-    a = _range_algebra(ctx, secf, 'sec')
-    b = _range_algebra(ctx, lotf, 'lot')
-    ctx.check(a == b, 'SIB', 'unpack_sections / unpack_lots agree on the range skeleton',
-              f"both: {a}", f"sections: {a}; lots: {b}", key="SIB|unpackers|range")
+    a = ctx.attempt(_range_algebra, secf, 'sec')
+    b = ctx.attempt(_range_algebra, lotf, 'lot')
+    if a is not None and b is not None:
+        ctx.check(a == b, 'SIB', 'unpack_sections / unpack_lots agree on the range skeleton',
+                  f"both: {a}", f"sections: {a}; lots: {b}", key="SIB|unpackers|range")
+    else:
+        ctx.undecided('SIB', 'unpack_sections / unpack_lots agree on the range skeleton', 'one skeleton not recognised')
     ctx.attempt(_routes)
+    unp = [f for f in ctx.repo.funcs.values() if f.module.name.endswith('unpack.unpackers')]
+    if common.flag_drops(ctx, unp) == 0:
+        ctx.ok('RX-FLAGS', 'unpackers: no compiled regex is re-applied by its bare pattern text')
 
 
 def _helpers(ctx, multisec, multilot):
@@ -117,9 +123,8 @@ def _helpers(ctx, multisec, multilot):
                 ctx.check(g in gfacts, 'RX-GROUPS', f"{fi.qualname}: mo[{g!r}] exists in {rn}",
                           detail_bad=f"{fi.qualname} reads group {g!r}, which {rn} does not define",
                           key=f"RX-GROUPS|{fi.qualname}|{g}")
-        ctx.check({'{kind}num_rightmost', '{kind}num'} <= templates, 'RX-GROUPS',
-                  f"{fi.qualname} reads the <kind>num / <kind>num_rightmost pair",
-                  detail_bad=f"templates are {sorted(templates)}", key=f"RX-GROUPS|{fi.qualname}|pair")
+        ctx.shape({'{kind}num_rightmost', '{kind}num'} <= templates, 'RX-GROUPS',
+                  f"{fi.qualname} reads the <kind>num / <kind>num_rightmost pair")
     # get_rightmost: multi -> *_rightmost, else plain
     fi = ctx.repo.func('unpackers:get_rightmost')
     ok = False
@@ -129,21 +134,15 @@ def _helpers(ctx, multisec, multilot):
             ret_f = [norm(s) for s in n.orelse if isinstance(s, ast.Return)]
             if any('num_rightmost' in r for r in ret_t) and any('num_rightmost' not in r and 'num' in r for r in ret_f):
                 ok = True
-    ctx.check(ok, 'RX-GROUPS', 'get_rightmost: rightmost group for multi matches, leftmost otherwise',
-              detail_bad="get_rightmost no longer returns <kind>num_rightmost exactly when is_multi()",
-              key="RX-GROUPS|get_rightmost|branch")
+    ctx.shape(ok, 'RX-GROUPS', 'get_rightmost: rightmost group for multi matches, leftmost otherwise')
     fi = ctx.repo.func('unpackers:thru_rightmost')
     txt = ' '.join(norm(n) for n in fi.node.body)
-    ctx.check("mo['intervener']" in txt and 'through_regex.search' in txt, 'RX-GROUPS',
-              "thru_rightmost tests the last intervener against through_regex",
-              detail_bad="thru_rightmost no longer searches mo['intervener'] with through_regex",
-              key="RX-GROUPS|thru_rightmost")
+    ctx.shape("mo['intervener']" in txt and 'through_regex.search' in txt, 'RX-GROUPS',
+              "thru_rightmost tests the last intervener against through_regex")
     fi = ctx.repo.func('unpackers:start_of_rightmost')
     txt = ' '.join(norm(n) for n in fi.node.body)
-    ctx.check("mo.start('intervener')" in txt, 'RX-GROUPS',
-              "start_of_rightmost cuts at the start of the last intervener",
-              detail_bad="start_of_rightmost no longer returns mo.start('intervener')",
-              key="RX-GROUPS|start_of_rightmost")
+    ctx.shape("mo.start('intervener')" in txt, 'RX-GROUPS',
+              "start_of_rightmost cuts at the start of the last intervener")
 
 
 class Lin:
@@ -184,130 +183,143 @@ def lin(e):
     return None
 
 
+def _order_info(fi):
+    """(order_var or None, lo_name, hi_name) from `X = start < end` (or a guard compare)."""
+    for n in walk_local(fi.node):
+        cmp_ = None
+        var = None
+        if isinstance(n, ast.Assign) and isinstance(n.value, ast.Compare) and len(n.value.ops) == 1 \
+                and isinstance(n.targets[0], ast.Name):
+            cmp_, var = n.value, n.targets[0].id
+        if cmp_ is None:
+            continue
+        if not (isinstance(cmp_.left, ast.Name) and isinstance(cmp_.comparators[0], ast.Name)):
+            continue
+        lo, hi = cmp_.left.id, cmp_.comparators[0].id
+        if isinstance(cmp_.ops[0], (ast.Gt, ast.GtE)):
+            lo, hi = hi, lo
+        elif not isinstance(cmp_.ops[0], (ast.Lt, ast.LtE)):
+            continue
+        return var, lo, hi
+    return None, None, None
+
+
+def _branch_of(node, order_var):
+    """'in-order' / 'out-of-order' / None from the guards of node."""
+    for t, pol in guards(node):
+        tx = norm(t)
+        if tx == order_var:
+            return 'in-order' if pol else 'out-of-order'
+        if tx == f"not {order_var}":
+            return 'out-of-order' if pol else 'in-order'
+    return None
+
+
 def _range_algebra(ctx, fi, kind):
     q = fi.qualname
-    loops = [n for n in walk_local(fi.node) if isinstance(n, ast.For)
-             and isinstance(n.iter, ast.Call) and dotted(n.iter.func) == 'range']
-    if len(loops) != 1 or len(loops[0].iter.args) != 3 \
-            or not all(isinstance(a, ast.Name) for a in loops[0].iter.args):
-        raise AnalysisError(f"{q}: expected exactly one `for .. in range(a, b, step)` loop")
-    loop = loops[0]
-    an, bn, sn = [a.id for a in loop.iter.args]
+    order_var, start, end = _order_info(fi)
+    if order_var is None:
+        ctx.undecided('RANGE', f"{q}: range algebra", 'no `order = start < end` comparison recognised')
+        return None
+    calls = [c for c in walk_local(fi.node) if isinstance(c, ast.Call) and dotted(c.func) == 'range'
+             and len(c.args) in (2, 3)]
+    if not calls:
+        ctx.undecided('RANGE', f"{q}: range algebra", 'no range() expansion recognised')
+        return None
     cfg, rd = flow.analyse(fi.node)
-    node = cfg.node_of(loop)
-    # the tuple assignments defining (a, b, step)
-    defs = {}
-    for nm in (an, bn, sn):
-        for d in rd.reaching(node, nm):
-            if d[0] == 'param':
-                raise AnalysisError(f"{q}: range bound {nm} is a parameter")
-            st = cfg.nodes[d[0]].ast
-            defs.setdefault(id(st), st)
-    branches = []
-    for st in defs.values():
-        if not (isinstance(st, ast.Assign) and isinstance(st.targets[0], ast.Tuple)
-                and isinstance(st.value, ast.Tuple)
-                and [norm(t) for t in st.targets[0].elts] == [an, bn, sn]):
-            raise AnalysisError(f"{q}: range bounds are not set by `a, b, step = ...` ({norm(st)[:60]})")
-        la, lb, ls = [lin(v) for v in st.value.elts]
-        if la is None or lb is None or ls is None or not ls.is_const():
-            raise AnalysisError(f"{q}: non-linear range bounds")
-        neg_guard = [norm(t) for t, pol in guards(st) if pol]
-        branches.append((st, la, lb, ls.const, neg_guard))
-    if len(branches) != 2:
-        raise AnalysisError(f"{q}: expected two (ascending/descending) bound assignments, found {len(branches)}")
-    # which names are start/end
-    order = None
-    for n in walk_local(fi.node):
-        if isinstance(n, ast.Assign) and isinstance(n.value, ast.Compare) and len(n.value.ops) == 1 \
-                and isinstance(n.targets[0], ast.Name) and 'order' in n.targets[0].id:
-            order = n
-    if order is None:
-        raise AnalysisError(f"{q}: no `correct_order = start < end` comparison")
-    cmp_ = order.value
-    if not (isinstance(cmp_.left, ast.Name) and isinstance(cmp_.comparators[0], ast.Name)):
-        raise AnalysisError(f"{q}: order test is not between two names")
-    lo_name, hi_name = cmp_.left.id, cmp_.comparators[0].id
-    if isinstance(cmp_.ops[0], (ast.Gt, ast.GtE)):
-        lo_name, hi_name = hi_name, lo_name
-    elif not isinstance(cmp_.ops[0], (ast.Lt, ast.LtE)):
-        raise AnalysisError(f"{q}: unexpected order operator")
-    start, end = lo_name, hi_name      # 'start_of_list' < 'end_of_list' when in order
-    # provenance: end is the previously appended element, start the new one
+    alts = []       # (branch, la, lb, step, node)
+    for c in calls:
+        args = list(c.args) + ([ast.Constant(value=1)] if len(c.args) == 2 else [])
+        if all(isinstance(a, ast.Name) for a in c.args):
+            # bounds set by tuple / plain assignments: one alternative per defining statement
+            node = flow.stmt_node(cfg, c)
+            stmts = {}
+            for a in c.args:
+                for d in rd.reaching(node, a.id):
+                    if d[0] == 'param':
+                        continue
+                    st = cfg.nodes[d[0]].ast
+                    stmts[id(st)] = st
+            for st in stmts.values():
+                if isinstance(st, ast.Assign) and isinstance(st.targets[0], ast.Tuple) and isinstance(st.value, ast.Tuple) \
+                        and [norm(t) for t in st.targets[0].elts] == [a.id for a in c.args]:
+                    vals = list(st.value.elts) + ([ast.Constant(value=1)] if len(c.args) == 2 else [])
+                    alts.append((_branch_of(st, order_var), lin(vals[0]), lin(vals[1]), lin(vals[2]), st))
+                else:
+                    ctx.undecided('RANGE', f"{q}: range algebra", f"bounds not set by `a, b, step = ...` ({norm(st)[:50]})")
+                    return None
+        else:
+            alts.append((_branch_of(c, order_var), lin(args[0]), lin(args[1]), lin(args[2]), c))
+    if any(a[1] is None or a[2] is None or a[3] is None or not a[3].is_const() for a in alts):
+        ctx.undecided('RANGE', f"{q}: range algebra", 'non-linear range bounds')
+        return None
+    # an unguarded alternative is the default that the out-of-order branch overrides
+    branches = {}
+    for br, la, lb, ls, node in alts:
+        if br is None:
+            br = 'in-order' if any(b == 'out-of-order' for b, *_ in alts) else None
+        if br is None:
+            ctx.undecided('RANGE', f"{q}: range algebra", 'cannot tell which direction a range() belongs to')
+            return None
+        branches[br] = (la, lb, ls.const, node)
+    if set(branches) != {'in-order', 'out-of-order'}:
+        ctx.undecided('RANGE', f"{q}: range algebra", f"branches found: {sorted(branches)}")
+        return None
+    # provenance: `end` is the element appended last
     end_def = [n for n in walk_local(fi.node) if isinstance(n, ast.Assign)
                and isinstance(n.targets[0], ast.Name) and n.targets[0].id == end]
-    ok_end = False
     if end_def:
         prov = flow.provenance(fi.node, end_def[0].value)
-        ok_end = any(p[0] == 'sub' and p[1].endswith('[-1]') for p in prov)
-    ctx.check(bool(ok_end), 'RANGE', f"{q}: {end} is the element appended last (list[-1])",
-              detail_bad=f"{end} no longer derives from working_list[-1]",
-              key=f"RANGE|{q}|end-provenance")
+        ctx.tri(any(p[0] == 'sub' and p[1].endswith('[-1]') for p in prov), False, 'RANGE',
+                f"{q}: {end} is the element appended last (list[-1])")
     summary = []
-    for st, la, lb, step, g in branches:
-        descending_branch = any(f"not {order.targets[0].id}" == x for x in g)
-        # in-order list (start < end): we walk down from end-1 to start => step -1
-        want_step = 1 if descending_branch else -1
+    for which, (la, lb, step, node) in sorted(branches.items()):
+        # in-order text (start < end): walk down from end-1 to start => step -1
+        want_step = -1 if which == 'in-order' else 1
         da = la - Lin({end: 1})
         db = lb - Lin({start: 1})
-        okk = da.is_const() and db.is_const() and da.const == step and db.const == step \
-            and step == want_step
-        which = 'descending-text branch' if descending_branch else 'ascending-text branch'
+        okk = da.is_const() and db.is_const() and da.const == step and db.const == step and step == want_step
         ctx.check(okk, 'RANGE', f"{q}: {which} range({la!r}, {lb!r}, {step})",
                   f"covers ({end}, {start}] stepping {step}: inclusive of {start}, exclusive of the already appended {end}",
                   f"range({la!r}, {lb!r}, {step}) does not denote every number strictly after "
                   f"{end} up to and including {start} (need a = {end}{want_step:+d}, b = {start}{want_step:+d}, step {want_step:+d})",
-                  key=f"RANGE|{q}|{which}", where=common.loc(fi, st))
-        summary.append((which, repr(la - Lin({end: 1})), repr(lb - Lin({start: 1})), step))
-        if descending_branch:
-            # non-sequential flag raised here, PAIRed
-            lst, idx = None, None
-            p = st._parent
-            body = ' '.join(norm(s) for s in p.body) if isinstance(p, ast.If) else ''
-            ctx.check('nonsequential' in body and 'self.flags.append(flag)' in body
-                      and 'self.flag_lines.append((flag,' in body,
-                      'PAIR', f"{q}: nonsequential flag raised on the descending branch",
-                      detail_bad="the descending branch no longer raises a paired nonsequential flag",
-                      key=f"PAIR|{q}|nonsequential")
-        else:
-            p = st._parent
-            body = ' '.join(norm(s) for s in (p.body if hasattr(p, 'body') else []))
-    # the flag is not raised outside the descending branch
+                  key=f"RANGE|{q}|{which}", where=common.loc(fi, node))
+        summary.append((which, repr(da), repr(db), step))
+    # the non-sequential flag: only for out-of-order ranges, PAIRed
+    flagged = False
     for n in walk_local(fi.node):
         if isinstance(n, ast.Assign) and isinstance(n.value, ast.Constant) \
                 and isinstance(n.value.value, str) and n.value.value.startswith('nonsequential'):
-            gs = [norm(t) for t, pol in guards(n) if pol]
-            ctx.check(any(x.startswith('not ') and 'order' in x for x in gs), 'PAIR',
-                      f"{q}: nonsequential flag only for out-of-order ranges",
-                      detail_bad=f"nonsequential flag is raised under {gs}",
-                      key=f"PAIR|{q}|nonsequential-guard")
-    # loop-carried state: found_through set from thru_rightmost each pass, list reversed once
-    txt = [norm(s) for s in walk_local(fi.node) if isinstance(s, ast.stmt)]
-    ctx.check(any(t.startswith('found_through = thru_rightmost(') for t in txt), 'RANGE',
-              f"{q}: found_through updated from thru_rightmost each pass",
-              detail_bad="found_through is no longer set from thru_rightmost(mo)",
-              key=f"RANGE|{q}|found_through")
+            flagged = True
+            br = _branch_of(n, order_var)
+            ctx.tri(br == 'out-of-order', br == 'in-order' or br is None, 'PAIR',
+                    f"{q}: nonsequential flag only for out-of-order ranges",
+                    detail_bad=f"the nonsequential flag is raised {'for in-order ranges' if br == 'in-order' else 'for every range'}",
+                    key=f"PAIR|{q}|nonsequential-guard")
+    whole = ' '.join(norm(x) for x in walk_local(fi.node) if isinstance(x, ast.stmt))
+    ctx.tri(flagged, 'nonsequential' not in whole, 'PAIR', f"{q}: a descending range raises a nonsequential flag",
+            detail_bad="no nonsequential warning is raised any more", key=f"PAIR|{q}|nonsequential")
+    txt = [norm(s_) for s_ in walk_local(fi.node) if isinstance(s_, ast.stmt)]
+    ctx.shape(any(t.startswith('found_through = thru_rightmost(') for t in txt), 'RANGE',
+              f"{q}: found_through updated from thru_rightmost each pass")
     n_rev = sum(1 for t in txt if t.endswith('.reverse()'))
-    ctx.check(n_rev == 1, 'RANGE', f"{q}: working list reversed exactly once",
-              detail_bad=f"{n_rev} reverse() calls on the right-to-left working list",
-              key=f"RANGE|{q}|reverse")
+    ctx.tri(n_rev == 1, n_rev == 0 and 'reversed(' not in whole and '[::-1]' not in whole, 'RANGE',
+            f"{q}: working list reversed exactly once",
+            detail_bad="the right-to-left working list is never reversed: numbers come out last-to-first",
+            key=f"RANGE|{q}|reverse")
     return sorted(summary)
 
 
 def _routes(ctx):
     fi = ctx.repo.func('plss_preprocess:find_sec')
     txt = ' '.join(norm(s) for s in fi.node.body)
-    ctx.check('multisec_regex.finditer(text)' in txt and 'SecUnpacker(' in txt
+    ctx.shape('multisec_regex.finditer(text)' in txt and 'SecUnpacker(' in txt
               and '.extend(unpacker.sec_list)' in txt, 'ROUTE',
-              'find_sec: every multisec match -> SecUnpacker -> extend in order',
-              detail_bad="find_sec no longer extends its result with SecUnpacker(match).sec_list for each match",
-              key="ROUTE|find_sec")
+              'find_sec: every multisec match -> SecUnpacker -> extend in order')
     fi = ctx.repo.func('SecFinder.findall_matching_sec.new_match')
     txt = ' '.join(norm(s) for s in fi.node.body)
-    ctx.check('SecUnpacker(mo.group(0))' in txt and 'unpacker.sec_list' in txt, 'ROUTE',
-              'SecFinder.new_match stores SecUnpacker(match).sec_list',
-              detail_bad="SecFinder.new_match no longer stores the unpacked section list",
-              key="ROUTE|SecFinder.new_match")
+    ctx.shape('SecUnpacker(mo.group(0))' in txt and 'unpacker.sec_list' in txt, 'ROUTE',
+              'SecFinder.new_match stores SecUnpacker(match).sec_list')
     fi = ctx.repo.func('PLSSParser.construct_tracts')
     loops = [n for n in walk_local(fi.node) if isinstance(n, ast.For) and "tract_data['sec']" in norm(n.iter)]
     ok = False
@@ -316,18 +328,31 @@ def _routes(ctx):
         if 'Tract(' in body and 'self.tracts.append(' in body and not any(
                 isinstance(s, (ast.If, ast.Break, ast.Continue)) and 'sec_within' not in norm(s) for s in lp.body):
             ok = True
-    ctx.check(ok, 'ROUTE', 'construct_tracts: one Tract per expanded section, in order',
-              detail_bad="construct_tracts no longer appends exactly one Tract per element of tract_data['sec']",
-              key="ROUTE|construct_tracts")
+    ctx.shape(ok, 'ROUTE', 'construct_tracts: one Tract per expanded section, in order')
     fi = ctx.repo.func('TractParser.parse')
     txt = ' '.join(norm(s) for s in walk_local(fi.node) if isinstance(s, ast.stmt))
-    ctx.check('LotUnpacker(block)' in txt and 'self.lots.extend(new_lots)' in txt, 'ROUTE',
-              'TractParser.parse: every lot block -> LotUnpacker -> lots.extend',
-              detail_bad="lot blocks are no longer routed through LotUnpacker into .lots",
-              key="ROUTE|TractParser.parse|lots")
+    ctx.shape('LotUnpacker(block)' in txt and 'self.lots.extend(new_lots)' in txt, 'ROUTE',
+              'TractParser.parse: every lot block -> LotUnpacker -> lots.extend')
     # ilots mirrors lots
     ti = ctx.repo.func('Tract.ilots')
     txt = norm(ti.node.body[-1])
-    ctx.check('for lt in self.lots' in txt and "int(lt.split('L')[-1])" in txt, 'ROUTE',
-              'Tract.ilots is an element-wise int map over .lots',
-              detail_bad=f"ilots is now `{txt[:80]}`", key="ROUTE|Tract.ilots")
+    ctx.shape('in self.lots' in txt and 'int(' in txt, 'ROUTE', 'Tract.ilots is an element-wise int map over .lots')
+    # duplicates are kept: the section list flows unmodified into the staged tract
+    st = ctx.repo.func('ChunkParser._stage_new_tract')
+    dicts = [n for n in walk_local(st.node) if isinstance(n, ast.Dict)]
+    val = None
+    for d in dicts:
+        for k, v in zip(d.keys, d.values):
+            if isinstance(k, ast.Constant) and k.value == 'sec':
+                val = v
+    if val is None:
+        ctx.undecided('ROUTE', "_stage_new_tract stores the section list as given", "'sec' entry not recognised")
+    else:
+        txtv = norm(val)
+        dedup = any(isinstance(c, ast.Call) and (dotted(c.func) or '') in ('set', 'dict.fromkeys', 'frozenset', 'sorted', 'OrderedDict.fromkeys')
+                    for c in ast.walk(val))
+        ctx.tri(txtv in ('sec', 'list(sec)', 'sec.copy()', 'sec[:]'), dedup, 'ROUTE',
+                "_stage_new_tract stores the section list as given (duplicates kept, order kept)",
+                detail_bad=f"the staged section list is `{txtv}`: repeated section numbers are dropped / reordered, so "
+                           f"fewer tracts are created than sections were written", key="ROUTE|_stage_new_tract|sec",
+                where=common.loc(st, val))
